@@ -5,6 +5,8 @@
 # gone) is listed as such, exit 0 is a MISS.
 # usage: fixcheck.sh [commit-prefix]
 WT=${VERIF_SCRATCH_WT:-/tmp/wt2}
+# the scratch worktree is created on demand (remove it afterwards: git -C /repo worktree remove --force $WT)
+[ -d "$WT" ] || git -C /repo worktree add -q --detach "$WT" || exit 9
 cd $WT || exit 9
 miss=0
 grep "^fixed:" /verif/known_findings.txt | awk '{print $2, $3}' | sed 's/property=//' | while read prop sha; do
